@@ -132,6 +132,22 @@ pub mod parser {
 pub mod writer {
     use crate::{RtcpPacket, RtcpWriteError};
 
+    /// The largest RTCP packet: the header stores the number of 32-bit words minus one in 16 bits.
+    pub(crate) const MAX_PACKET_LEN: usize = 4 * (u16::MAX as usize + 1);
+
+    /// Checks that a packet of `size` bytes can be described by the length field of its header.
+    #[inline(always)]
+    pub(crate) fn check_packet_len(size: usize) -> Result<usize, RtcpWriteError> {
+        if size > MAX_PACKET_LEN {
+            return Err(RtcpWriteError::PacketTooLarge {
+                size,
+                max: MAX_PACKET_LEN,
+            });
+        }
+
+        Ok(size)
+    }
+
     /// Checks that the provided padding is a mutliple of 4.
     #[inline(always)]
     pub fn check_padding(padding: u8) -> Result<(), RtcpWriteError> {
